@@ -474,7 +474,7 @@ func cmdCheck(args []string) int {
 			objs[i] = &Obl{Name: cp.name}
 			cj = append(cj, job{objs[i], cp.query, filepath.Join(work, "cover", fmt.Sprintf("%04d.smt2", i))})
 		}
-		solveCovers(cj, 2)
+		solveCovers(cj, 3)
 		for i, cp := range covers {
 			cp.res = objs[i].Result
 		}
